@@ -90,8 +90,11 @@ def gen_session(rng, n):
             ops.append("o 0 unfix")
         elif r < 0.82:
             ops.append("o %x addr %x" % (mask, rng.choice((0x1234, 0x5678, 0x9abc, rng.randrange(1, 1 << 40)))))
-        elif r < 0.90:
+        elif r < 0.86:
             ops.append("o %x emit %d %d" % (mask & 1, rng.randrange(0, nsec + 1), rng.choice((1, 4, 100, 5000, 9000, 20000))))
+        elif r < 0.90:
+            ops.append(rng.choice(("o %x inst %d %d" % (mask & 1, rng.randrange(0, nsec + 1), rng.randrange(0, 4)),
+                                   "o %x jmpf %d" % (mask & 3, rng.randrange(0, nsec + 1)))))
         elif r < 0.95:
             ops.append(rng.choice(("o %x vapp %d" % (mask & 1, rng.randrange(0, 1000)), "o %x vres %d" % (mask & 1, rng.choice((1, 3, 10, 100))))))
         else:
@@ -111,10 +114,80 @@ def gen_retry_session(rng, n):
     return ops
 
 
+def asm_program(rng, big):
+    """the shape of the assembler workload as operation bodies: sections, labels, named labels, instructions, forward jumps,
+    data, label-delta expressions, absolute targets (relocation + address table), buffers that have to grow"""
+    P = ["mklabels", "sec 2e64617461 16 0", "sec 2e726f64617461 8 1"]
+    for i in range(4 if not big else 10):
+        P.append("label")
+    P += ["named 656e7472795f706f696e74 2 4294967295", "named 6c6f63 1 2", "named 616e6f6e 0 4294967295"]
+    for i in range(3 if not big else 12):
+        P.append("named %02x%02x 2 4294967295" % (103, 48 + i))
+    for i in range(10 if not big else 40):
+        P.append("inst 0 %d" % rng.randrange(0, 4))
+        if i % 3 == 0:
+            P.append("jmpf 0")
+    P += ["reloc 2", "addr 123456789abc", "reloc 2", "addr 7fff12345678", "reloc 2", "addr 123456789abc"]
+    P += ["emit 1 12", "reloc 1", "fixup", "emit 1 8", "expr", "emit 2 8", "expr", "jmpf 1"]
+    if big:
+        P += ["emit 1 5000"] * 4 + ["emit 0 9000", "inst 0 1", "emit 2 20000", "jmpf 2"]
+    P += ["unfix", "jmpf 0", "inst 0 2"]
+    return P
+
+
+def program_sweep(h, P, rng, limit):
+    """every allocation request of the program fails once (the failed operation is then repeated with memory available): the
+    sessions for the model correspondence; returns (ops, expected final view)"""
+    clean = ["o reset"] + ["o 0 " + b for b in P]
+    impl, rc, err = vlib.run_lines([str(h)], clean)
+    if rc != 0 or len(impl) != len(clean):
+        return clean, None
+    ns = []
+    for a in impl:
+        m = re.search(r" n=(\d+)", a)
+        ns.append(int(m.group(1)) if m else 0)
+    points = [(i, j) for i in range(1, len(clean)) for j in range(ns[i])]
+    if len(points) > limit:
+        points = sorted(rng.sample(points, limit))
+    ops = list(clean)
+    for (i, j) in points:
+        body = P[i - 1]
+        ops += ["o reset"] + ["o 0 " + b for b in P[:i - 1]] + ["o %x %s" % (1 << j, body), "o 0 " + body] + ["o 0 " + b for b in P[i:]]
+    return ops, impl[-1].split(" | ")[1] if " | " in impl[-1] else None
+
+
+def gen_builder_session(rng, n):
+    ops = ["b reset"]
+    labels = 0
+    for _ in range(n):
+        r = rng.random()
+        m = rng.random()
+        mask = (1 << rng.randrange(0, 3)) if m < 0.45 else (rng.randrange(0, 8) if m < 0.6 else 0)
+        if r < 0.30:
+            ops.append("b %x emit %d %d" % (mask, rng.randrange(0, 4), rng.randrange(0, 2)))
+        elif r < 0.45:
+            ops.append("b %x newlabel" % mask)
+            labels += 1
+        elif r < 0.55:
+            ops.append("b %x clabel" % mask)
+            labels += 1
+        elif r < 0.72:
+            ops.append("b %x bind %d" % (mask, rng.randrange(0, labels + 2)))
+        elif r < 0.78:
+            ops.append("b %x align %d" % (mask, rng.choice((1, 4, 16, 64))))
+        elif r < 0.86:
+            ops.append("b %x embed %d" % (mask, rng.choice((0, 1, 8, 100, 3000))))
+        elif r < 0.93:
+            ops.append("b %x elabel %d" % (mask, rng.randrange(0, labels + 2)))
+        else:
+            ops.append("b %x comment %d" % (mask, rng.choice((0, 0, 1, 5, 40))))
+    return ops
+
+
 def split_sessions(ops):
     out, cur = [], []
     for o in ops:
-        if o == "o reset" and cur:
+        if o in ("o reset", "b reset") and cur:
             out.append(cur)
             cur = []
         cur.append(o)
@@ -124,7 +197,7 @@ def split_sessions(ops):
 
 
 def mon_lines(ops, impl):
-    return ["m " + o[2:] + " => " + a for o, a in zip(ops, impl)]
+    return [("mb " if o.startswith("b ") else "m ") + o[2:] + " => " + a for o, a in zip(ops, impl)]
 
 
 def ops_stage(res, h, ops, dist):
@@ -156,7 +229,7 @@ def ops_stage(res, h, ops, dist):
     bad = [i for i, m in enumerate(mon) if m != "good"]
     if bad or len(mon) != len(ops):
         i = bad[0] if bad else len(mon)
-        sess_start = max(j for j in range(i + 1) if ops[j] == "o reset")
+        sess_start = max(j for j in range(i + 1) if ops[j] in ("o reset", "b reset"))
         sess = ops[sess_start:i + 1]
 
         def is_bad(c):
@@ -170,8 +243,9 @@ def ops_stage(res, h, ops, dist):
                       {"ops": small}, found_input=True, key="ops:" + (ops[i].split()[2] if len(ops[i].split()) > 2 else "reset"))
         ok = False
     d = vlib.first_diff(impl, model)
-    if d is not None and ok:
-        sess_start = max(j for j in range(d + 1) if ops[j] == "o reset")
+    # a correspondence difference is reported unless a monitor violation at or before that line already explains it
+    if d is not None and (not bad or d < bad[0]):
+        sess_start = max(j for j in range(d + 1) if ops[j] in ("o reset", "b reset"))
         res.violation("correspondence: model and real code differ at op %r: impl=%s model=%s (the monitor accepts the real code's answers)" % (
             ops[d], impl[d][:300] if d < len(impl) else "-", model[d][:300] if d < len(model) else "-"),
             {"ops": ops[sess_start:d + 1], "correspondence": "Model/Fault.lean step vs harness/c15.cpp ops_step"}, found_input=False, key="corr")
@@ -216,11 +290,12 @@ def sweep_lines(w, counts, rng, tier):
 SHAPES = {"comp": "RALocalAllocator::init", "compbig": "RALocalAllocator::init", "compcf": "RALocalAllocator::init"}
 
 
-def shape_requests(h, w):
+def shape_requests(h, w, needle=None):
     """ordinals of the arena requests made inside the function named in SHAPES (symbolised call stacks)"""
     if w not in SHAPES:
         return []
-    out, rc, err = vlib.run_lines([str(h)], ["where %s %s" % (w, SHAPES[w])])
+    needle = needle or SHAPES[w]
+    out, rc, err = vlib.run_lines([str(h)], ["where %s %s" % (w, needle)])
     m = re.search(r" k=([\d,]*)$", out[0]) if out else None
     return [int(x) for x in m.group(1).split(",") if x] if m else []
 
@@ -242,6 +317,13 @@ def run_workload(res, h, w, rng, tier, dist):
         if not must:
             res.violation("the workload %s no longer reaches %s (generator shape lost)" % (w, SHAPES[w]), {"ops": ["where %s %s" % (w, SHAPES[w])]},
                           found_input=False, key="corr")
+    if w in SHAPES:
+        # a register's home slot whose creation fails is created again on the next spill: only a SECOND failure shortly
+        # afterwards reaches the code that needs the slot - pairs (k, k + d) for every request of `_create_stack_slot`
+        slots = shape_requests(h, w, "_create_stack_slot")
+        dist["shapes"]["%s: arena requests inside _create_stack_slot" % w] = len(slots)
+        for k in slots:
+            lines += ["fault %s arena %d %d" % (w, k, k + d) for d in range(1, 13)]
     if w == "jitdual":
         dist["shapes"]["jitdual: vm requests (memfd_create, ftruncate, 2 x mmap per block)"] = c["vm"]
     if w == "arenahist":
@@ -270,7 +352,13 @@ def run_workload(res, h, w, rng, tier, dist):
             pos = len(lines)
         else:
             pos = len(lines)
+    if not recs:
+        res.violation("workload %s: no fault-injected run produced a record" % w, {"ops": lines[:3]}, found_input=False, key="empty:" + w)
+        return 0
     mon, _, _ = vlib.run_model("C15", recs)
+    if len(mon) != len(recs):
+        res.violation("workload %s: the monitor answered %d of %d records" % (w, len(mon), len(recs)), {"ops": done_lines[:3]},
+                      found_input=False, key="corr")
     fired_by_class = dist["fired"]
     for line, r, m in zip(done_lines, recs, mon):
         f = dict(x.split("=", 1) for x in r.split() if "=" in x)
@@ -313,11 +401,33 @@ def run(res):
     ops = []
     for i in range(nsess):
         ops += gen_session(rng, rng.choice((10, 25, 45))) if i % 3 else gen_retry_session(rng, rng.choice((6, 12)))
+        if i % 4 == 0:
+            ops += gen_builder_session(rng, rng.choice((15, 40)))
     ops_ok = ops_stage(res, h, ops, dist)
+    # the assembler workload's shape at the level of the model: every request of the program fails once, the failed call is
+    # repeated; model = real code on every line, and every session must end in the failure-free state (runRetry_eq_specRun)
+    for big in ((False,) if res.tier == "quick" else (False, True)):
+        P = asm_program(rng, big)
+        pops, final = program_sweep(h, P, rng, 60 if res.tier == "quick" else 400)
+        ops_stage(res, h, pops, dist)
+        impl2, rc2, _ = vlib.run_lines([str(h)], pops)
+        ends = [i for i, o in enumerate(pops) if o == "o reset"][1:] + [len(pops)]
+        bad_end = [e for e in ends if final is None or e - 1 >= len(impl2) or (impl2[e - 1].split(" | ") + ["", ""])[1] != final]
+        dist["program_sweep_sessions"] = dist.get("program_sweep_sessions", 0) + len(ends)
+        if bad_end and not any(v["found_input"] for v in res.violations):
+            e = bad_end[0]
+            st = max(i for i in range(e) if pops[i] == "o reset")
+            res.violation("after a failed call was repeated the program does not end in the failure-free state", {"ops": pops[st:e]},
+                          found_input=True, key="ops:program")
+        ops += pops
+    if not ops or sum(dist["ops"].values()) == 0:
+        res.violation("empty run: no operation line was executed", {"ops": ops[:5]}, found_input=False, key="empty")
     # ---- PART 1
     n_runs = 0
     for w in (QUICK_WL if res.tier == "quick" else THOROUGH_WL):
         n_runs += run_workload(res, h, w, rng, res.tier, dist)
+    if n_runs == 0:
+        res.violation("empty run: no fault-injected workload run was executed", {"ops": []}, found_input=False, key="empty")
     if not ok:
         bf = getattr(res, "build_failures", [])
         found = any(v["found_input"] for v in res.violations)
